@@ -271,8 +271,22 @@ def classify(unit, data, diags, run):
         if kind == 'recommends':
             continue
         run.failures.append({'id': oid, 'props': props, 'kind': kind, 'message': msg, 'fn': fn,
-                             'rendered': d.get('rendered', ''), 'repo': repo_loc,
+                             'rendered': d.get('rendered', ''), 'repo': repo_loc, 'site': site_text(repo_loc),
                              'repo_fn': unit.fns.get(fn, {}).get('path'), 'repo_file': unit.fns.get(fn, {}).get('file')})
+
+
+def site_text(repo_loc):
+    """the source line a failure is reported at (an exit of the function, a call site), whitespace-normalised: known findings
+    name the sites they cover, so that the same clause failing at another place is still reported"""
+    if not repo_loc:
+        return None
+    try:
+        rel, ln = repo_loc.rsplit(':', 1)
+        with open(os.path.join(REPO, rel)) as fh:
+            lines = fh.read().split('\n')
+        return ' '.join(lines[int(ln) - 1].split())
+    except Exception:
+        return None
 
 
 def lemma_props(unit, fn, failing=False):
